@@ -13,7 +13,8 @@ META = {
     "are executed over an in-memory VFS holding a fresh cache file while PickleStub.load raises a symbolic one of the exception classes pickle "
     "documents/produces for damaged input; on every path the reply equals the reply without a cache file, for both directory handlers and all "
     "protocol forms. A concrete exhaustive sweep over every prefix (and the zero-filled image) of real cache files shows that the real "
-    "pickle.load only ever produces outcomes inside the stub's outcome set, and replays the real request on the real truncated files.",
+    "pickle.load only ever produces outcomes inside the stub's outcome set, and replays the real request on the real truncated files."
+    " The writer is shown to truncate first and write through one handle (so a killed writer leaves a prefix), and a file cut after any number of intact pickled objects is never accepted as a listing.",
     "trusted": "CrossHair/z3; PickleStub outcome set (validated per run against the real pickle on all prefixes of real cache files).",
     "explanation": "Symbolic failure outcome of the unpickling step through the real handlers + exhaustive concrete validation of that outcome set.",
     "assumptions": [
